@@ -27,6 +27,9 @@ API
     registrations(src, 'event'|'command') -> [Registration(index, name, impl, mapped, text)]
     union_rx(src, which) -> Rx of the whole automaton as evaluated from MatcherAutomata::new
     fold_predicate(src, closure_node) -> 256-bit class of a `|b| <bool expr>` closure node of src.json
+    decode_entry_facts(src) -> {'<decoder::XMatcher as decoder::Matcher>::decode': {'minlen','maxlen','prefix','suffix','grammars','impl','registered'}}
+    termsize_piece_minlen(src[, witness=True]) -> k: every ESC-free factor after the first of a TermSize word has length >= k
+    termcap_hex_runs_even(src) -> (True, None) | (False, word): maximal hex runs inside data[5..len-2] of TermCap words are even
     matcher_impl_count(src), extraction_problems(src) -> bookkeeping used by C15
     Unfoldable is raised (naming the construct) for anything outside the evaluated subset; extract() records it in Grammar.problem instead.
     Typical use in another rule:   g = grammar.extract(ctx.src)["MouseEventMatcher"];  g.minlen, g.prefix, g.suffix;
@@ -2163,6 +2166,75 @@ def union_rx(src, which):
     if st is None or st[1] not in ex.grammars:
         raise Unfoldable("automaton of the %s decoder was not found: %s" % (which, "; ".join(ex.problems)))
     return ex.grammars[st[1]].rx
+
+
+HEX_CLASS = R.cls(b"0123456789abcdefABCDEF")
+ESC_CLASS = R.cls(b"\x1b")
+
+
+def decode_entry_facts(src):
+    """Facts about the `data` slice that reaches Matcher::decode of every parsed (Either::Left) matcher, keyed by the MIR body path of the
+    decode impl, e.g. '<decoder::CursorPositionMatcher as decoder::Matcher>::decode':
+        {'minlen': n, 'maxlen': n | None (unbounded), 'prefix': bytes, 'suffix': bytes, 'grammars': [names], 'impl': struct, 'registered': ['event', ...]}
+    computed on the AS-BUILT automaton (what the decoder runs); a matcher struct constructed with several field values (UTF8Matcher modes)
+    gets the facts of the union of its instances.  Grammars that could not be folded raise Unfoldable (callers fail closed)."""
+    ex = extraction(src)
+    by_impl = {}
+    for g in ex.grammars.values():
+        if g.kind == "parsed" and g.impl:
+            by_impl.setdefault(g.impl, []).append(g)
+    out = {}
+    for impl, gs in sorted(by_impl.items()):
+        for g in gs:
+            if g.rx is None:
+                raise Unfoldable("grammar %s: %s" % (g.name, g.problem))
+        if len(gs) == 1:
+            d = gs[0].asbuilt_dfa
+        else:
+            model = ex.wiring.model()
+            u = R.NFA(2)
+            u.start, u.stop = 0, 1
+            for g in gs:
+                a = R.build_asbuilt(g.rx, model)
+                off = u.absorb(a)
+                u.eps[0].add(a.start + off)
+                u.eps[a.stop + off].add(1)
+            d = R.minimize(R.determinize(u), keep_tags=False)
+        names = sorted(g.name for g in gs)
+        reg = [w for w in ("event", "command") if any(r.name in names for r in ex.regs[w])]
+        mod = re.sub(r"^src/|\.rs$", "", DECODER).replace("/", "::")
+        key = "<%s::%s as %s::Matcher>::decode" % (mod, impl, mod)
+        out[key] = {"minlen": R.minlen(d), "maxlen": R.maxlen(d), "prefix": R.common_prefix(d), "suffix": R.common_suffix(d),
+                    "grammars": names, "impl": impl, "registered": reg}
+    return out
+
+
+def termsize_piece_minlen(src, witness=False):
+    """k such that in every word of the (as-built) TermSizeMatcher language every ESC-free factor after the first — i.e. every piece of
+    data.split(ESC) with index >= 1 — has length >= k (k is the exact minimum).  With witness=True returns (k, word attaining it)."""
+    g = extract(src).get("TermSizeMatcher")
+    if g is None or g.rx is None:
+        raise Unfoldable("TermSizeMatcher grammar not available: %s" % (g.problem if g else "no such impl"))
+    k, w = R.split_piece_min_len(g.asbuilt_dfa, ESC_CLASS, skip=1)
+    if k is None:
+        raise Unfoldable("TermSizeMatcher words have no piece after the first ESC")
+    return (k, w) if witness else k
+
+
+def termcap_hex_runs_even(src):
+    """(True, None) iff in every word of the (as-built) TermCapMatcher language every maximal run of ASCII hex digits inside the payload
+    data[5 .. len-2] has even length (so hex_decode never sees a dangling nibble); otherwise (False, full word with an odd run)."""
+    g = extract(src).get("TermCapMatcher")
+    if g is None or g.rx is None:
+        raise Unfoldable("TermCapMatcher grammar not available: %s" % (g.problem if g else "no such impl"))
+    d = g.asbuilt_dfa
+    if (R.minlen(d) or 0) < 7:
+        return (False, b"")
+    payload, complete = R.slice_dfa(d, 5, 2)
+    w = R.run_parity_witness(payload, HEX_CLASS)
+    if w is None:
+        return (True, None)
+    return (False, complete(w) or w)
 
 
 def matcher_impl_count(src):
